@@ -8,7 +8,7 @@ import (
 
 // Every generated function has these parameters; impure operands are calls of the functions declared
 // in Preamble (in differential programs they log their name and return values from a script).
-const Params = "a, b, c int, u, v uint, p, q float64, s, t string, k, l bool, xs []int, bs []byte, ms myStr, mi myInts, mm myMap, ma myArr, pa *myArr, w *wr, mf, mg myF, mc, mc2 myC, fa [2]myF, vv val, it *iter"
+const Params = "a, b, c int, u, v uint, p, q float64, s, t string, k, l bool, xs []int, bs []byte, ms myStr, mi myInts, mm myMap, ma myArr, pa *myArr, w *wr, mf, mg myF, mc, mc2 myC, fa [2]myF, vv val, it *iter, pe *myE"
 
 // Preamble for files that are only analysed (never run).
 const LintPreamble = `
@@ -32,6 +32,11 @@ type myStr string
 type myInts []int
 type myMap map[int]string
 type myArr [3]int
+
+// a pointer type that implements error: a nil *myE stored in an error interface is a non-nil error
+type myE struct{}
+
+func (*myE) Error() string { return "myE" }
 
 type myErr struct{}
 
